@@ -436,7 +436,7 @@ def main(tier, replay):
     okm, modelrun = vlib.build_model("Region")
     okg, exe = vlib.go_build("regioncache", roots=ROOTS)
     stats = dict(oracle_evals=0, conv=0, conv_rounds=collections.Counter())
-    mstats, classes, mism, fails, samples, distinct = {}, {}, [], [], [], 0
+    mstats, classes, mism, fails, samples, distinct, invs = {}, {}, [], [], [], 0, []
     if okg and okm and not replay:
         # directed: the public API over mocktikv's own PD client (F29, fixed by 201b415): bounded range then unbounded range
         pr = subprocess.run([exe, "probe-mockpd"], env=env, stdout=subprocess.PIPE, stderr=subprocess.PIPE, timeout=120).stdout.decode(errors="replace")
@@ -468,6 +468,8 @@ def main(tier, replay):
                     stats.setdefault("sender_prims", {})[f[1]] = int(f[2])
                 elif f[0].startswith("MISMATCH"):
                     mism.append(f)
+                elif f[0] in ("INVARIANT", "TRUTH-NOT-WF"):
+                    invs.append(f)
             seqs = read_seqs(trace)
             del trace
             seen = set()
@@ -510,8 +512,17 @@ def main(tier, replay):
                 if fc:
                     obj["finding_class"] = fc
                 v.violation(obj)
+            # the hypotheses of C09_converges_checked, evaluated by the extracted cinvb / truth_wfb on the implementation's states
+            byseq = {(s.cls, s.seed): s for s in seqs}
+            for m in invs[:3]:
+                sq = byseq.get((m[1], int(m[2])))
+                idx = int(m[3]) if m[3].lstrip("-").isdigit() else -1
+                v.violation({"kind": "property-oracle", "oracle": "C09_converges(invariant of the proof holds in the reached state)",
+                             "case": [m[1], int(m[2]), idx + 1 if idx >= 0 else -1], "operation": " ".join(m[4:6]),
+                             "what": ("the cache content after this operation violates the invariant cinv relative to the ground truth: " + " ".join(m[6:7])) if m[0] == "INVARIANT"
+                                     else "the ground truth at a quiescent point is not a partition into led regions (truth_wfb false)",
+                             "state": m[7:8], "trace": seq_excerpt(sq, idx if idx >= 0 else 10 ** 9) if sq else []})
             if mism and not [f for f in fails if not f["finding_class"]]:
-                byseq = {(s.cls, s.seed): s for s in seqs}
                 for m in mism[:3]:
                     sq = byseq.get((m[1], int(m[2])))
                     idx = int(m[3]) if m[3].lstrip("-").isdigit() else -1
@@ -536,7 +547,7 @@ def main(tier, replay):
                     "rounds; PD answers from stale snapshots with probability 0/0.25/0.5; distinct = distinct (op,args,PD answers,result,index) among operations "
                     "that touch PD or the merger",
                samples=samples, traces_validated_against_impl=mstats.get("cases", 0), input_distribution=classes,
-               sequences=mstats.get("seqs", 0), store_replies_compared=mstats.get("replies", 0), model_mismatches=len(mism), oracle_failures=len([f for f in fails if not f["finding_class"]]),
+               sequences=mstats.get("seqs", 0), store_replies_compared=mstats.get("replies", 0), invariant_states_checked=mstats.get("inv_checked", 0), invariant_failures=len(invs), truth_wf_checked=mstats.get("wf_checked", 0), model_mismatches=len(mism), oracle_failures=len([f for f in fails if not f["finding_class"]]),
                known_finding_hits=len([f for f in fails if f["finding_class"]]), bucket_lookups=stats.get("bucket_lookups", 0), stuck_rounds=stats.get("stuck_rounds", 0), sender_convergences=stats.get("sender_convs", 0), sender_effects_explained=stats.get("sender_prims", {}), observations={"bucket_fallback_unclamped": stats.get("obs_bucket_fallback_unclamped", 0)},
                convergence_rounds={str(k): n for k, n in sorted(stats["conv_rounds"].items())}, convergence_bound=CONV_BOUND)
     rc = v.finish()
